@@ -38,3 +38,7 @@ Print Assumptions C14_chain_returns.
 Theorem C14_transfer_composes : forall L1 L2 L3, lat_ok L2 ->
   mmul (place_Tx L1 L2) (place_Tx L2 L3) = place_Tx L1 L3 /\ mmul (place_Tu L1 L2) (place_Tu L2 L3) = place_Tu L1 L3.
 Proof. intros L1 L2 L3 H. exact (conj (tx_compose L1 L2 L3 H) (tu_compose L1 L2 L3 H)). Qed.
+Theorem C14_structure_cart_and_tensors_preserved : forall L L' nid atoms, lat_ok L -> lat_ok L' ->
+  map (cart L') (place_in_lattice L L' nid atoms) = map (cart L) atoms /\
+  map (fun a => ucart L' (read_U L' a)) (place_in_lattice L L' nid atoms) = map (fun a => ucart L (read_U L a)) atoms.
+Proof. exact structure_cart_preserved. Qed.
